@@ -4,7 +4,9 @@
 
 #include <etl/_config/all.hpp>
 
+#include <etl/_3rd_party/gcem/gcem.hpp>
 #include <etl/_concepts/integral.hpp>
+#include <etl/_limits/numeric_limits.hpp>
 #include <etl/_type_traits/is_constant_evaluated.hpp>
 #include <etl/_type_traits/is_same.hpp>
 
@@ -14,11 +16,24 @@ namespace detail {
 template <typename T>
 [[nodiscard]] constexpr auto rint_fallback(T arg) noexcept -> T
 {
-    if constexpr (sizeof(T) <= sizeof(long)) {
-        return static_cast<T>(static_cast<long>(arg));
-    } else {
-        return static_cast<T>(static_cast<long long>(arg));
+    // NaN, infinities, zeros and values that have no fractional part
+    if (arg != arg or arg == T(0) or etl::detail::gcem::abs(arg) >= T(1) / etl::numeric_limits<T>::epsilon()) {
+        return arg;
     }
+
+    // round to nearest, ties to even
+    auto const lower = etl::detail::gcem::floor(arg);
+    auto const frac  = arg - lower;
+    auto result      = lower;
+    if (frac > T(0.5)) {
+        result = lower + T(1);
+    } else if (frac == T(0.5)) {
+        auto const half = lower / T(2);
+        result          = etl::detail::gcem::floor(half) == half ? lower : lower + T(1);
+    }
+
+    // a zero result keeps the sign of the argument
+    return (result == T(0) and arg < T(0)) ? -T(0) : result;
 }
 
 template <typename T>
